@@ -195,7 +195,7 @@ func (env *cenv) eval(e *CExpr) cval {
 		if v, ok := env.vars[e.Name]; ok {
 			if v.cell != "" {
 				v.term = env.g.loadPtr(env.cur, v.cell, v.typ)
-				if env.cur.formal == nil {
+				if env.cur.formal == nil && !strings.Contains(v.term, "|q.") {
 					env.g.stateVar("G.alloc", "Int")
 					key := "cellwf:" + v.term
 					if f := env.g.typeFacts(v.term, v.typ, env.g.get(env.cur, "G.alloc")); f != "true" && !env.g.declared[key] {
